@@ -22,7 +22,7 @@ POOLS = {
     "dns": ["www.example.com", "api.shop.example.org", "a.b.c.d.e.example.net", "localhost", "mail.example.co.uk",
             "host-1.internal", "0.example.com", "com"],
     "long": ["a" * 40 + "." + "b" * 40 + ".example.com", ".".join(["c" * 63] * 3) + ".example.org",
-             "d" * 63 + ".example.net", "e" * 30 + "." + "f" * 29 + ".xy"],  # >= 64 characters, labels <= 63
+             "d" * 63 + ".example.net", "e" * 30 + "." + "f" * 30 + ".xyz"],  # >= 64 characters, labels <= 63
     "idn": ["xn--bcher-kva.example", "xn--og8h.sni.example", "xn--fsqu00a.xn--0zwm56d", "www.xn--mnchen-3ya.de"],
     "ip4": ["192.0.2.7", "10.1.2.3", "127.0.0.2", "203.0.113.200"],
     "ip6": ["2001:db8::7", "::1", "fe80::1", "2001:db8:0:0:1::1"],
@@ -35,7 +35,7 @@ POOLS = {
     "loc4": ["127.0.0.1", "192.0.2.1", "10.0.0.5"],
     "loc6": ["::1", "2001:db8::1", "fe80::1%eth0"],
 }
-ORGS = [None, "Example Org", "Ö" * 3 + " GmbH & Co. KG", "O" * 100]
+ORGS = ["Example Org", "Ö" * 3 + " GmbH & Co. KG", "O" * 100]
 CRLS = [None, "http://crl.example.com/a/b.crl?x=1", "ldap://[::1/cn=x", "http://crl.example.org"]
 TZ_NAMES = {0: "UTC", 14: "Etc/GMT-14", -11: "Etc/GMT+11", 5: "Etc/GMT-5"}
 
@@ -44,10 +44,10 @@ def kind(tok: str) -> str:
     return tok.split(":")[0]
 
 
-def conn(sni="none", local="loc4:1", addr="none", upcn="none", upsans=(), upopt=True):
+def conn(sni="none", local="loc4:1", addr="none", upcn="none", upsans=(), upopt=True, uporg=False):
     icls = {"none": "local6" if kind(local) == "loc6" else "local4"}.get(sni, kind(sni))
-    return {"sni": sni, "local": local, "addr": addr, "upcn": upcn, "upsans": tuple(upsans), "upopt": upopt,
-            "icls": icls}
+    return {"sni": sni, "local": local, "addr": addr, "upcn": upcn, "upsans": tuple(upsans), "uporg": uporg,
+            "upopt": upopt, "icls": icls}
 
 
 def conns_for(tier):
@@ -60,6 +60,7 @@ def conns_for(tier):
            ("ip4:1", ("ip4:1",)),
            ("long:1", ("long:1", "email:1")),
            ("badcn:1", ("dns:1",))]                  # CN the idna codec cannot encode
+    orgs = {("dns:1", ("dns:1", "dns:3")), ("long:1", ("long:1", "email:1")), ("none", ("dns:2", "ip4:2"))}
     if tier != "quick":
         ups += [("none", ("email:1", "uri:1", "dns:3")), ("dns:3", ()), ("cnstr:1", ()),
                 ("dns:1", ("dns:2", "dns:3", "ip6:2", "wild:1"))]
@@ -78,6 +79,8 @@ def conns_for(tier):
                     locs = ["loc4:1", "loc6:1"] if sni == "none" else ["loc4:1"]
                     for loc in locs:
                         out.append(conn(sni, loc, a, upcn, upsans, upopt))
+                        if (upcn, upsans) in orgs and (tier != "quick" or upopt):
+                            out.append(conn(sni, loc, a, upcn, upsans, upopt, uporg=True))
     return out
 
 
@@ -85,6 +88,7 @@ def conns2_for(tier):
     """Follow-up connections chosen to meet earlier ones in the cache (same CN / same names / different names)."""
     c2 = [conn("dns:1", "loc4:1", "none", "none", ()),
           conn("dns:2", "loc4:1", "none", "dns:1", ("dns:1", "dns:3")),      # same upstream CN, other SNI
+          conn("none", "loc4:1", "none", "long:1", ("long:1", "email:1")),   # same names as an earlier one with O
           conn("dns:1", "loc4:1", "dns:2", "dns:1", ("dns:1", "dns:3")),
           conn("none", "loc4:1", "none", "none", ()),
           conn("ip4:1", "loc4:1", "ip4:2", "none", ())]
@@ -153,6 +157,8 @@ def to_gn(tok_kind: str, text: str):
 def verify_class(msg: str) -> str:
     if msg == "ok":
         return "ok"
+    if "subjectAltName MUST NOT be critical when subject is nonempty" in msg:
+        return "san_critical_with_subject"
     m = msg.split("validation failed: ")[-1].split(" (")[0].strip().lower()
     return "".join(ch if ch.isalnum() else "_" for ch in m)[:48] or "failed"
 
@@ -230,7 +236,7 @@ class Run:
         upcert = None
         if c["upcn"] is not None or c["upsans"]:
             upcert, _ = mint().leaf(self.upstream_root, cn=c["upcn"], sans=[to_gn(k, t) for k, t in c["upsans"]],
-                                    org=extras.get("org"), crl=extras.get("crl"))
+                                    org=extras.get("org") if c.get("uporg") else None, crl=extras.get("crl"))
 
         def before(name, data, nth):
             if name == "tls_start_client" and upcert is not None:
@@ -308,7 +314,8 @@ def concretise(c: dict, tt: dict) -> dict:
     g = lambda t: None if t == "none" else tt[t]
     return {"sni": g(c["sni"]), "local": tt[c["local"]], "addr": g(c["addr"]), "upcn": g(c["upcn"]),
             "upcn_kind": kind(c["upcn"]) if c["upcn"] != "none" else None,
-            "upsans": [(kind(t), tt[t]) for t in c["upsans"]], "upopt": bool(c["upopt"]), "icls": c["icls"]}
+            "upsans": [(kind(t), tt[t]) for t in c["upsans"]], "uporg": bool(c.get("uporg")),
+            "upopt": bool(c["upopt"]), "icls": c["icls"]}
 
 
 class Check(core.PropertyCheck):
@@ -341,8 +348,11 @@ class Check(core.PropertyCheck):
 
     def model_constants(self, tier):
         conns = conns_for(tier)
-        return {"Envs": frozenset(envs_for(tier) if tier != "quick" else envs_for(tier)),
+        alt = [c for c in conns if c["upopt"] and c["addr"] in ("none", "dns:2") and c["sni"] in ("none", "dns:1", "long:1")
+               and (c["upcn"], c["upsans"]) in (("none", ()), ("dns:1", ("dns:1", "dns:3")), ("long:1", ("long:1", "email:1")))]
+        return {"Envs": frozenset(envs_for(tier)), "MainEnv": ("default", 0),
                 "Conns": frozenset(core.tlaval.FrozenDict(c) for c in conns),
+                "ConnsAlt": frozenset(core.tlaval.FrozenDict(c) for c in alt),
                 "Conns2": frozenset(core.tlaval.FrozenDict(c) for c in conns2_for(tier)),
                 "MaxConns": 2, "Long": frozenset({"long:1", "long:2"}), "BadIdna": frozenset({"badcn:1"})}
 
@@ -355,13 +365,15 @@ class Check(core.PropertyCheck):
         behs = g.edge_cover(rng, max_len=8, tail=4)
         behs += g.random_walks(rng, 300 if ctx.quick else 4000, 6)
         seen = set()
+        cands = []
         for b in behs:
             env = b[0][2]["env"]
             cs = [dict(args[0]) for name, args, _st in b[1:] if name == "GetCert"]
-            # a behaviour may end between GetCert and Issue: replay only complete connections
-            n_issue = sum(1 for name, _a, _s in b[1:] if name == "Issue")
-            n_raise = sum(1 for _n, _a, st in b[1:] if any(e.get("k") == "raised" for e in core.tlaval.to_py(st.get("obs", ()))))
-            cs = cs[: n_issue + n_raise]
+            pred = []
+            for _n, _a, st in b[1:]:
+                pred += core.tlaval.to_py(st.get("obs", ()))
+            # a behaviour may end between GetCert and Issue: replay only complete connections (one record each)
+            cs = cs[: len(pred)]
             if not cs:
                 continue
             key = (tuple(env), tuple(tuple(sorted(c.items())) for c in cs))
@@ -370,12 +382,24 @@ class Check(core.PropertyCheck):
             seen.add(key)
             for c in cs:
                 c["upsans"] = list(c["upsans"])
-            salt = rng.randrange(1 << 20)
-            pred = []
-            for _n, _a, st in b[1:]:
-                pred += core.tlaval.to_py(st.get("obs", ()))
-            pred = pred[: len(cs)]
-            yield core.Scenario({"ca": env[0], "tz": env[1], "conns": cs, "salt": salt}, predicted=pred, source="model")
+            cands.append((env, cs, pred))
+        if ctx.quick:
+            # every (environment, first connection) at least once; all follow-ups only after the first connections that
+            # can meet them in the cache (same upstream names / same SNI)
+            keep, have = [], set()
+            rng.shuffle(cands)
+            cands.sort(key=lambda t: -len(t[1]))
+            for env, cs, pred in cands:
+                first = (tuple(env), tuple(sorted((k, str(v)) for k, v in cs[0].items())))
+                hot = cs[0]["addr"] == "none" and cs[0]["sni"] in ("dns:1", "none") and cs[0]["upopt"]
+                if (hot and len(cs) > 1) or first not in have:
+                    keep.append((env, cs, pred))
+                    have.add(first)
+            cands = keep
+        for env, cs, pred in cands:
+            yield core.Scenario({"ca": env[0], "tz": env[1], "conns": cs, "salt": rng.randrange(1 << 20),
+                                 "org": rng.randrange(3), "crl": rng.randrange(len(CRLS))},
+                                predicted=pred, source="model")
         # beyond the model: more names per certificate, mixed case, longer sequences, random attributes
         rng = random.Random(ctx.seed + 1616)
         for _ in range(150 if ctx.quick else 2500):
@@ -402,7 +426,8 @@ class Check(core.PropertyCheck):
             else:
                 upcn, upsans = "none", []
             loc = pick(["loc4", "loc6"])
-            conns.append(conn(sni, loc, addr, upcn, tuple(dict.fromkeys(upsans)), rng.random() < 0.8))
+            conns.append(conn(sni, loc, addr, upcn, tuple(dict.fromkeys(upsans)), rng.random() < 0.8,
+                              uporg=(upcn != "none" or bool(upsans)) and rng.random() < 0.4))
         for c in conns:
             c["upsans"] = list(c["upsans"])
         return {"ca": rng.choice(["default", "default", "chain", "chain_nonski"]), "tz": rng.choice([0, 14, -11, 5]),
@@ -430,7 +455,7 @@ class Check(core.PropertyCheck):
                     if cc["sni"] and kind(c["sni"]) in ("dns", "idn", "long") and rng.random() < 0.5:
                         cc["sni"] = cc["sni"].upper()
                     cc["upsans"] = [(k, t.upper() if k in ("dns", "idn") and rng.random() < 0.3 else t) for k, t in cc["upsans"]]
-                extras = {"org": ORGS[sc.get("org", 0)], "crl": CRLS[sc.get("crl", 0)],
+                extras = {"org": ORGS[sc.get("org", 0) % len(ORGS)], "crl": CRLS[sc.get("crl", 0)],
                           "outer_mode": sc.get("outer_mode", "swp_outer")}
                 ev = run.connect(cc, table, extras)
                 trace.append(ev)
